@@ -1194,6 +1194,11 @@ func Run(c *ev.Ctx) int {
 			refusedPolicyPutLane(c, sc)
 		}(sc)
 	}
+	wg.Add(1)
+	go func(seed int64) {
+		defer wg.Done()
+		innerWildcardLane(c, seed)
+	}(c.Rng("inner-wildcard").Int63())
 	for _, cc := range []string{"cache-default", "cache-disabled"} {
 		wg.Add(1)
 		go func(cc string) {
